@@ -66,6 +66,16 @@ Clause -> case family
         interleaved on two nodes, all triples over 8 bytes (thorough: all 65536
         byte pairs) - every heartbeat is decoded on its own.
 
+  * "a boot-up message is reported as PRE-OPERATIONAL" when the boot-up is the node's ANSWER to a command
+        fam "app": a device application behind the LocalNodes (Rig._application) answers reset commands
+        with the boot-up message (then PRE-OPERATIONAL), or every command with a heartbeat; on the inline
+        bus the answer is handled before the master's send_command has returned.  The message sequence
+        is "command, boot-up": the master reports PRE-OPERATIONAL afterwards.
+  * the master of a node is whichever RemoteNode is registered for the id
+        fam "rrep" / step "rreplace": the RemoteNode of A or B is replaced on the live network (5 ways,
+        up to three times in one history); heartbeats, boot-ups, commands and waits are then judged on
+        the new object, the other node's master and network.nmt must not notice.
+
 Deviations from DESIGN.md (soundness / cost):
   * two node pairs instead of one, so "commands for other nodes change
     nothing" is observed on real objects in both directions; the length 3/4
@@ -106,7 +116,14 @@ RULE = ("case = (node ids, heartbeat time, start state, history of steps); steps
         "the feeder thread, other nodes' heartbeats, non-boot-up heartbeats of the awaited node) precedes the "
         "cyclic matching frames (positive: must return, time-out = schedule + 6 s) or nothing (negative: NmtError), "
         "waiting node A or B, two or three waits in a row on one object. Hypothesis: histories up to 12 "
-        "steps with arbitrary specifiers/ids/bytes/strings, wait histories with random schedules. Oracle: CiA 301 table model RefNmt compared "
+        "steps with arbitrary specifiers/ids/bytes/strings, wait histories with random schedules; half of them with a "
+        "device application on the slave side ('app': a reset command is answered with the boot-up message and "
+        "PRE-OPERATIONAL / boot-up only / every defined command acknowledged by a heartbeat of the new state; the answer "
+        "is delivered inline, i.e. before the master's call returns) and with 'rreplace' steps (the RemoteNode of A or B "
+        "replaced on the live network by add_node(node) / network[id]= / add_node(id, od) / del + add / re-adding the same "
+        "object; all later steps use the new object). Enumerated for these: every symbol x route (thorough: every pair) x "
+        "3 applications x 2 starts, reset routes inside histories, command + wait; replacement x 5 ways x {A, B} x 1-3 "
+        "times followed by heartbeats / boot-ups / commands / ticks / positive and negative waits. Oracle: CiA 301 table model RefNmt compared "
         "after every step (5 state views + frames sent by each side). Non-trivial: >=2 distinct effective "
         "commands, or a foreign-target / undefined specifier, an invalid name, a heartbeat byte the "
         "repository tests do not feed, any wait. distinct = canonical JSON of the case.")
@@ -127,6 +144,14 @@ ASSUMPTIONS = [
     "after a reset command - canopen's LocalNode sends neither) count as messages: the negative verdict and the "
     "tight return value are only demanded when there were none",
     "frames of the third port carry increasing bus time-stamps like the frames the Networks send themselves",
+    "device application ('app'): the harness's own model of what CiA 301 asks of a node that is reset (boot-up message, "
+    "then PRE-OPERATIONAL) or of a heartbeat producer that reports after every state change; its frames are sent through "
+    "the slave Network and judged like any slave frame (boot-up after a reset command: master must report "
+    "PRE-OPERATIONAL; truthful heartbeat: the master follows it). The simulated bus delivers inline, so the answer "
+    "is processed before send_command returns - the sequence of messages is 'command, boot-up', whatever the nesting",
+    "'rreplace': Network.add_node / __setitem__ for an id that is already present replaces the node object (documented "
+    "MutableMapping behaviour); the view of the NEW master before it has heard or sent anything is not judged (any "
+    "name), the step must not send frames nor change any other view",
     "the local dictionary contains 0x1017 with a default (the slave reads it when entering PRE-OPERATIONAL)",
 ]
 BUDGET = {"quick": 150, "thorough": 400}
@@ -156,6 +181,9 @@ INVALID_NAMES = ["", " ", "operational", "Operational", "OPERATIONAL ", " OPERAT
                  "UNKNOWN STATE '75'", "UNKNOWN", "0", "1", "5", "127", "128", "0x80", "None", "SLEEPING",
                  "STAND-BY", "stopped", "\u041e\u0420ERATIONAL", "OPERATIONAL,STOPPED", "STOPPED;", "*"]
 TESTED_HB = {0, 4, 5, 80, 96, 127, 0xCB}
+APPS = ("boot", "stay", "echo")                             # device applications (Rig._application)
+RR_HOWS = ("add", "setitem", "int", "del-add", "same")      # ways a master object is replaced (step "rreplace")
+ANY_STATE = frozenset(DEFINED | {UNK})
 
 
 def decode_hb(byte):
@@ -223,12 +251,10 @@ class Rig:
         self.views = tuple(["r" + T for T in self.nodes] + ["l" + T for T in self.nodes] + ["net"])
         # "ctor": "od" -> the node id is not given to the constructor (None / 0) but taken from the
         # object dictionary, as the node classes document
-        from_od = case.get("ctor") == "od"
+        from_od = self.from_od = case.get("ctor") == "od"
+        self.kidx = {T: k for k, T in enumerate(self.nodes)}
         for k, T in enumerate(self.nodes):
-            rod = canopen.ObjectDictionary()
-            if from_od:
-                rod.node_id = self.ids[T]
-            r = canopen.RemoteNode((None, 0)[k % 2] if from_od else self.ids[T], rod)
+            r = self.new_remote(T)
             self.mnet.add_node(r)
             self.remote[T] = r
             od = build_od([{"kind": "var", "index": 0x1017, "name": "Producer heartbeat time",
@@ -239,6 +265,56 @@ class Rig:
             self.snet.add_node(loc)
             self.local[T] = loc
         self.NmtError = canopen.nmt.NmtError
+        # "app": the device application behind the LocalNodes answers the NMT commands that concern it
+        # (CiA 301: a node that is reset re-initialises and announces itself with the boot-up message;
+        # canopen's LocalNode leaves that to the application).  The answer travels over the simulated bus
+        # like every other frame: it is delivered while the command is still being sent.
+        self.app = case.get("app") or None
+        if self.app not in (None,) + APPS:
+            raise ValueError(self.app)
+        if self.app:
+            self.snet.subscribe(0, self._application)
+
+    def new_remote(self, T):
+        """a fresh master object (RemoteNode) for node T, constructed the way the case says"""
+        import canopen
+        rod = canopen.ObjectDictionary()
+        if self.from_od:
+            rod.node_id = self.ids[T]
+        return canopen.RemoteNode((None, 0)[self.kidx[T] % 2] if self.from_od else self.ids[T], rod)
+
+    def _application(self, can_id, data, timestamp):
+        """Device application (harness side, CiA 301 addressing: own id or 0; undefined specifiers ignored).
+        "boot": a reset command -> re-initialise (boot-up message), then enter PRE-OPERATIONAL;
+        "stay": ... boot-up message only (still initialising when the step ends);
+        "echo": every defined command is answered with one heartbeat frame carrying the state the node
+                is in now (state 0 after a reset command = the boot-up message)."""
+        if len(data) < 2:
+            return
+        cs, nid = data[0], data[1]
+        if cs not in CS_STATE:
+            return
+        for T in self.nodes:
+            if nid not in (self.ids[T], 0):
+                continue
+            nmt = self.local[T].nmt
+            if cs in (129, 130):
+                if self.app == "echo":
+                    self.snet.send_message(0x700 + self.ids[T], [0])
+                else:
+                    nmt.state = "INITIALISING"
+                    if self.app == "boot":
+                        nmt.state = "PRE-OPERATIONAL"
+            elif self.app == "echo":
+                code = STATE_CODE.get(nmt.state)
+                if code:
+                    self.snet.send_message(0x700 + self.ids[T], [code])
+
+    def app_last(self):
+        """keep the application behind the nodes' own command handlers (it reacts to what they did)"""
+        if self.app:
+            self.snet.unsubscribe(0, self._application)
+            self.snet.subscribe(0, self._application)
 
     def snapshot(self):
         snap = {"net": self.mnet.nmt.state}
@@ -620,7 +696,40 @@ def step(rig, model, op, D, tag, before):
         except Exception as e:
             exc = e
         rig.local[T] = loc
+        rig.app_last()
         exp["l" + T] = {INIT}
+    elif kind == "rreplace":
+        # the MASTER object of node T is replaced on the live network (network.add_node / network[id] = ...
+        # for an id that is already present, as the Network documents): the new RemoteNode is the master of
+        # that node from now on - every later step is judged on it.  What a master that has not heard or
+        # commanded anything yet reports is not fixed by the property (any name); nobody else is concerned,
+        # nothing is sent.
+        T = op["to"]
+        how = op.get("how", "add")
+        if how not in RR_HOWS:
+            raise ValueError(how)
+        import canopen
+        nid = ids[T]
+        new = old = rig.remote[T]
+        try:
+            if how == "same":
+                rig.mnet.add_node(old)
+            elif how == "int":
+                new = rig.mnet.add_node(nid, canopen.ObjectDictionary())
+            else:
+                fresh = rig.new_remote(T)
+                if how == "del-add":
+                    del rig.mnet[nid]
+                    rig.mnet.add_node(fresh)
+                elif how == "setitem":
+                    rig.mnet[nid] = fresh
+                else:
+                    rig.mnet.add_node(fresh)
+                new = fresh
+        except Exception as e:
+            exc = e
+        rig.remote[T] = new
+        exp["r" + T] = set(ANY_STATE)
     else:
         raise ValueError(kind)
 
@@ -749,11 +858,18 @@ def run_case(case) -> Outcome:
 
 
 # ---- measurement ---------------------------------------------------------------------
+def _is_reset(op):
+    return op["op"] in ("raw", "cmd", "name") and \
+        (op.get("cs") in (129, 130) or bool(NAME_CS.get(op.get("name"), set()) & {129, 130}))
+
+
 def _nontrivial(case):
     eff = set()
+    if case.get("app") and any(op["op"] in ("raw", "cmd", "name") for op in case["ops"]):
+        return True          # a device that answers the commands: no repository test has one
     for op in case["ops"]:
         k = op["op"]
-        if k == "wait":
+        if k in ("wait", "rreplace"):
             return True
         if k in ("name", "lname") and op["name"] not in NAME_CS:
             return True
@@ -820,6 +936,16 @@ def _klass(case):
         tg = sum(1 for o in hbs if o["byte"] & 0x80)
         return f"hbseq/len{len(hbs)}/{'one-node' if len({o['to'] for o in hbs}) == 1 else 'two-nodes'}/" \
                f"toggle-bits={tg}"
+    if fam == "app":
+        routes = "+".join(sorted({o["op"] for o in ops if o["op"] in ("raw", "cmd", "name")})) or "none"
+        return f"app/{case.get('app')}/{'reset' if any(_is_reset(o) for o in ops) else 'no-reset'}/{routes}" \
+               f"/len{len(ops)}{'/wait' if any(o['op'] == 'wait' for o in ops) else ''}"
+    if fam == "rrep":
+        hows = sorted({o.get("how", "add") for o in ops if o["op"] == "rreplace"})
+        nrep = sum(1 for o in ops if o["op"] == "rreplace")
+        w = [o for o in ops if o["op"] == "wait"]
+        return f"rreplace/{'+'.join(hows)}/x{min(nrep, 3)}{'+' if nrep > 3 else ''}/" \
+               f"{'wait-' + w[-1]['what'] if w else 'heartbeats+commands'}{'/app' if case.get('app') else ''}"
     if fam == "wait":
         wis = [i for i, o in enumerate(ops) if o["op"] == "wait"]
         wi = wis[-1]
@@ -837,6 +963,10 @@ def _klass(case):
         flags.append("badname")
     if any(op["op"] in ("raw", "cmd") and op["cs"] not in CS_STATE for op in ops):
         flags.append("undef-cs")
+    if "rreplace" in kinds:
+        flags.append("master-replaced")
+    if case.get("app"):
+        flags.append("app-" + case["app"] + ("-reset" if any(_is_reset(op) for op in ops) else ""))
     return f"hist/len{ln}/" + ("+".join(flags) or "plain")
 
 
@@ -1098,6 +1228,83 @@ def enum_wait_busy(thorough):
     yield case([_W("boot", [["B", 0]], on="B"), _W("boot", [["B", 0]]), _W("boot", [["A", 0]], on="B")])
 
 
+def enum_app(thorough):
+    """The devices answer: a node that is reset announces itself with the boot-up message (and enters
+    PRE-OPERATIONAL), or every command is acknowledged with a heartbeat of the new state.  The answer is on
+    the bus before the master's call has returned (inline delivery).  After command + boot-up the master
+    reports PRE-OPERATIONAL, after command + heartbeat the state the heartbeat carries."""
+    H = lambda b, to="A": {"op": "hb", "byte": b, "to": to}   # noqa: E731
+    resets = [r for r in FLAT_ROUTES if _is_reset(r)]
+    follow = [{"op": "cmd", "cs": 1, "to": "A"}, {"op": "raw", "cs": 2, "to": "all"},
+              {"op": "name", "name": "RESET", "to": "B"}, H(0x85), {"op": "name", "name": "STOPPED", "to": "all"}]
+    n = 0
+    for app in APPS:
+        for start in ("preop", "init"):
+            if thorough:
+                for r1 in FLAT_ROUTES:
+                    for r2 in FLAT_ROUTES:
+                        n += 1
+                        yield dict(_base("app", start, [r1, r2], hb_ms=(0, 100)[n % 2], mod=bool(n % 3)), app=app)
+            for r in FLAT_ROUTES:
+                n += 1
+                yield dict(_base("app", start, [r], hb_ms=(0, 100)[n % 2]), app=app)
+                if n % 3 == 0:
+                    yield dict(_base("app", start, [r], hb_ms=(0, 100)[n % 2]), app=app, ctor="od")
+        for r in resets:
+            for f in follow:
+                n += 1
+                # ... in the middle of a history, twice, and seen through the node's own heartbeat afterwards
+                yield dict(_base("app", "preop", [f, r, {"op": "tick", "to": "A"}, f, r, H(5, "B")],
+                                 hb_ms=(100, 0)[n % 2], mod=bool(n % 2)), app=app)
+        # the usual application sequence: command, then wait for the node to report
+        for what in ("hb", "boot"):
+            for it in (("cmd", 129, "A"), ("raw", 130, "all"), ("cmd", 1, "A"), ("cmd", 130, "all")):
+                n += 1
+                yield dict(_base("app", ("preop", "init")[n % 2],
+                                 [_W(what, [["A", MATCH[what]]], [GAP, it, ("sleep", 4)]),
+                                  {"op": "cmd", "cs": 129, "to": "A"}, {"op": "cmd", "cs": 1, "to": "A"}]), app=app)
+
+
+def enum_rreplace(thorough):
+    """The master object of a node is replaced on the live network (once, twice, three times; every
+    documented way): the new object is the node's master from then on - heartbeats, boot-up messages,
+    commands and waits are judged on it, the other node's master and network.nmt are not concerned."""
+    H = lambda b, to: {"op": "hb", "byte": b, "to": to}   # noqa: E731
+    n = 0
+    first = [0, 4, 5, 0x7F, 0x85, 0x80, 1, 80] + (list(range(256)) if thorough else [])
+    for i, how in enumerate(RR_HOWS):
+        how2 = RR_HOWS[(i + 1) % len(RR_HOWS)]
+        how3 = RR_HOWS[(i + 3) % len(RR_HOWS)]
+        for who, other in (("A", "B"), ("B", "A")):
+            R = {"op": "rreplace", "to": who, "how": how}
+            R2 = {"op": "rreplace", "to": who, "how": how2}
+            R3 = {"op": "rreplace", "to": who, "how": how3}
+            Ro = {"op": "rreplace", "to": other, "how": how2}
+            for start in ("preop", "init"):
+                n += 1
+                c = lambda ops, **kw: dict(_base("rrep", start, ops, hb_ms=(0, 100)[n % 2]), **kw)   # noqa: E731
+                yield c([{"op": "cmd", "cs": 1, "to": who}, R, H(4, who), H(0x85, who), H(0, who),
+                         {"op": "cmd", "cs": 2, "to": who}, {"op": "raw", "cs": 1, "to": "all"}, H(5, other),
+                         H(0x7F, who), {"op": "tick", "to": who}])
+                yield c([H(5, who), H(4, other), R, H(0, other), H(5, who), R2, H(4, who),
+                         {"op": "name", "name": "PRE-OPERATIONAL", "to": who}, R3, H(0x80, who),
+                         {"op": "raw", "cs": 2, "to": who}, H(0x85, who), {"op": "lname", "name": "RESET", "to": who}])
+                yield c([R, Ro, {"op": "name", "name": "OPERATIONAL", "to": "all"}, {"op": "tick", "to": who},
+                         {"op": "tick", "to": other}, H(4, who), H(0, other)], ctor=("arg", "od")[n % 2])
+                yield c([{"op": "cmd", "cs": 129, "to": who}, R, {"op": "cmd", "cs": 130, "to": who},
+                         {"op": "raw", "cs": 129, "to": "all"}, R2, {"op": "name", "name": "RESET", "to": who}],
+                        app=APPS[n % 3])
+                # waits on the new object: the matching message comes / nothing (new) comes
+                for what in ("hb", "boot"):
+                    m = MATCH[what]
+                    yield c([R, _W(what, [[who, m]], on=who), _W(what, [[other, m]], on=other)])
+                    yield c([H(m, who), R, _W(what, [[other, m]], on=who), R2,
+                             _W(what, [[other, 4], [who, m | 0x80]], [("sleep", 30)], on=who)])
+            for b in first:
+                n += 1
+                yield _base("rrep", ("preop", "init")[n % 2], [H(b ^ 0x04, who), R, H(b, who), R2, R3, H(b ^ 0x80, who)])
+
+
 HB_VALUES = [0, 4, 5, 127, 80, 96, 1]
 
 
@@ -1160,6 +1367,7 @@ def _op():
         st.builds(lambda b, t: {"op": "hb", "byte": b, "to": t}, byte, st.sampled_from(["A", "A", "B", "none"])),
         st.builds(lambda t: {"op": "tick", "to": t}, t2),
         st.builds(lambda t: {"op": "replace", "to": t}, t2),
+        st.builds(lambda t, h: {"op": "rreplace", "to": t, "how": h}, t2, st.sampled_from(RR_HOWS)),
     )
 
 
@@ -1177,12 +1385,13 @@ _FEED_ITEM = st.tuples(st.sampled_from(["A", "A", "B", "none"]), st.integers(0, 
 _FEED0 = st.lists(_FEED_ITEM, min_size=0, max_size=4)
 _FEED1 = st.lists(_FEED_ITEM, min_size=1, max_size=4)
 _INT03 = st.integers(0, 3)
+_APP = st.sampled_from([None, None, None] + list(APPS))
 
 
 @st.composite
 def history(draw):
     return {"fam": "hist", "ids": draw(_IDS), "hb_ms": draw(_HB_MS), "mod": draw(_BOOL), "start": draw(_START),
-            "ops": draw(_OPS_1_12), "pairs": 2, "ctor": "od" if draw(_INT03) == 0 else "arg"}
+            "ops": draw(_OPS_1_12), "pairs": 2, "ctor": "od" if draw(_INT03) == 0 else "arg", "app": draw(_APP)}
 
 
 _T4 = st.sampled_from(["A", "all", "B", "none", "A", "all", "B", "none", "Ahi", "hi0", "hiF"])
@@ -1246,7 +1455,7 @@ def wait_history(draw, busy=False):
     if draw(_INT03) == 0:
         ops.append(draw(_wait_op(False)))
     return {"fam": "hist", "ids": ids, "hb_ms": draw(_HB_MS), "mod": draw(_BOOL), "start": draw(_START),
-            "ops": ops, "pairs": 2}
+            "ops": ops, "pairs": 2, "app": draw(_APP)}
 
 
 def tour():
@@ -1263,6 +1472,8 @@ def tour():
         yield next(x for x in enum_wait_busy(False) if _klass(x).endswith(want))
     yield next(x for x in enum_wait_busy(False) if any(op.get("timeout_ms") for op in x["ops"]))
     yield next(x for x in itertools.islice(enum_hb(), 1600, None) if len(x["ops"]) > 1)
+    yield next(x for x in enum_app(False) if any(_is_reset(o) for o in x["ops"]))
+    yield next(enum_rreplace(False))
 
 
 def search(ctx):
@@ -1275,6 +1486,11 @@ def search(ctx):
     ctx.enumerate(enum_wait(thorough), "wait_for_heartbeat / wait_for_bootup matrix")
     ctx.enumerate(enum_wait_busy(thorough), "waits with a silence before the match, with NMT command frames / send_command "
                                             "calls / other heartbeats during the wait, several waits on one object")
+    ctx.enumerate(enum_rreplace(thorough), "master object of a node replaced on the live network (5 ways, 1-3 times, A or B), "
+                                           "then heartbeats / boot-ups / commands / waits on the new object")
+    ctx.enumerate(enum_app(thorough), "devices that answer: reset -> boot-up message (-> PRE-OPERATIONAL) / every command "
+                                      "acknowledged by a heartbeat, delivered while the command is being sent; every "
+                                      "symbol x route" + (" pair" if thorough else "") + " x 3 applications x 2 starts")
     ctx.enumerate(enum_hb_seq(thorough), "heartbeat pairs over 7 state values x toggle bit on one and on two nodes, triples "
                                          "over 8 bytes" + (", all 65536 byte pairs" if thorough else ""))
     ctx.enumerate(enum_names(), "all documented names + invalid strings x {remote A/B, network, local A/B}")
